@@ -2,7 +2,7 @@ HOOKS = {
     "guard": "OISF_LIBHTP_VERIF",
     "enable": "tools/vbuild.py compiles /repo/htp/*.c and /repo/htp/lzma/*.c with -DOISF_LIBHTP_VERIF (see /verif/Makefile, CDEFS)",
     "baseline_off_cmd": "make -C /repo -j16 check",
-    "source_commits": ["d6504d6", "a9d43c9", "89124d2", "790d2b8"],
+    "source_commits": ["d6504d6", "a9d43c9", "89124d2", "790d2b8", "cf18bfc"],
     "add_only": True,
 }
 NOTES = ("All checks are generated-input search against an explicit oracle (rapidcheck generators with shrinking, exhaustive bounded "
